@@ -809,3 +809,6 @@ def extra_coverage(tier, tot):
             "module_level_containers_changed_by_a_history (diagnostic)": mutated,
             "driver_forms_whose_input_object_was_modified_by_convert (diagnostic; the results of the re-conversions are what is checked)": inputs_changed,
             "counters": {k: v for k, v in tot["extra"].items() if not k.startswith(("perm:", "preempted-in-file:", "mutated-container:", "input-object-changed:"))}}
+
+# as-built additions of the seventh wave (reported with the bound in the evidence)
+BOUND = {k: v + "; seventh wave: " + 'the frozen corpus as driver forms: 6 (thorough 32) hash seeds, three 501-step histories (file order, reverse, every workbook object twice), regeneration of every accepted form' for k, v in BOUND.items()}
